@@ -13,6 +13,7 @@ Inductive obs_err :=
 | ObsUnsat (args ins : list vkey) (convs : list Z) (full msgok : bool)
 | ObsErrId (e : Z)             (* exactly the scenario's error value e *)
 | ObsErrWrapped (e : Z)        (* a different error mentioning e *)
+| ObsErrValue (id : Z)         (* the returned error IS the supplied value with this serial (Convert to the type error) *)
 | ObsBuild | ObsMissing | ObsFilterOut | ObsDupInput | ObsOtherErr.
 
 Inductive obs :=
@@ -178,6 +179,25 @@ Definition check_op (m : cmp_mode) (u : universe) (bh : behaviour) (prev : list 
   | OpConvert t opts =>
       match oo_obs ob with
       | ObsConvert e v =>
+        if t =? 12 then
+          (* target type `error`: the synthesised func(error) error has NO output and
+             a final error result; it returns its argument as the error, so a
+             resolvable conversion fails with exactly the injected value *)
+          let r := call u (fun fid n => if fid =? -1 then BErr (-1) else bh fid n)
+                        (mkFn (-1) (-1 - t) FPos [mkF EmptyString t EmptyString] FPos [] true false) [] opts w (oo_tape ob) in
+          (res_code_m m r (fun rn =>
+             let ok := match run_out rn with
+                       | OOk rs =>
+                           match r_err rs, rev (run_trace rn), e, v with
+                           | Some _, EExec _ [a] _ _ :: _, ObsErrValue id, None => v_id a =? id
+                           | _, _, _, _ => false
+                           end
+                       | OErr x => match v with None => err_matches m x e | Some _ => false end
+                       end in
+             if negb ok then 1
+             else if negb (events_eqb (proj_events m (filter not_internal (run_trace rn))) (proj_events m (oo_events ob))) then 2 else 0) false,
+           match r with Ok rn => run_world rn | _ => w end)
+        else
           let r := convert u bh t opts w (oo_tape ob) in
           (res_code_m m r (fun vr =>
              let '(mv, rn) := vr in
